@@ -63,6 +63,10 @@ class Plane(GeoBody):
             # We need a vector orthogonal to the two given ones so we
             # (the length doesn't matter) so we just use the cross
             # product
+            if vab.parallel(vac):
+                raise ValueError(
+                    "Invalid Plane, the points are collinear / the vectors are parallel"
+                )
             vec = vab.cross(vac)
             self._init_pn(a, vec)
         elif len(args) == 2:
@@ -72,6 +76,8 @@ class Plane(GeoBody):
 
     def _init_pn(self, p, normale):
         """Initialise a plane given in the point normal form."""
+        if normale == Vector.zero():
+            raise ValueError("Invalid Plane, normal Vector(0 | 0 | 0)")
         self.p = p
         self.n = normale.normalized()
 
@@ -81,6 +87,8 @@ class Plane(GeoBody):
         # 1) a normal vector -> given by (a, b, c)
         # 2) a point on the plane -> solve the equation and chose a
         #    "random" point
+        if Vector(a, b, c) == Vector.zero():
+            raise ValueError("Invalid Plane, normal Vector(0 | 0 | 0)")
         solution = solve([[a, b, c, d]])
         self.n = Vector(a, b, c).normalized()
         self.p = Point(*solution(1, 1))
